@@ -1,7 +1,7 @@
-(* C14: admit ss = VOk  <->  every depends entry names a step  /\  the dependency relation on names is acyclic. *)
+(* C14: gaccept ss = VOk  <->  every depends entry names a step  /\  the dependency relation on names is acyclic. *)
 From Coq Require Import List Arith Bool Lia PeanoNat String Relations Relation_Operators Operators_Properties.
 Import ListNotations.
-From BD.Graph Require Import Kahn KahnLemmas KahnProof Admit.
+From BD.Graph Require Import Kahn KahnLemmas KahnProof Accept.
 
 (* ---- the specification, over step names ---- *)
 Definition dep_rel (ss : list gstep) (a b : string) : Prop :=
@@ -194,10 +194,10 @@ Qed.
 End Transfer.
 
 (* ---- the three verdicts ---- *)
-Theorem admit_ok_iff ss : NoDup (map gname ss) ->
-  (admit ss = VOk <-> all_resolve ss /\ acyclic_names ss).
+Theorem gaccept_ok_iff ss : NoDup (map gname ss) ->
+  (gaccept ss = VOk <-> all_resolve ss /\ acyclic_names ss).
 Proof.
-  intros Hnd. unfold admit. destruct (edges ss) as [E|] eqn:HE.
+  intros Hnd. unfold gaccept. destruct (edges ss) as [E|] eqn:HE.
   - assert (Hres : all_resolve ss).
     { destruct (edges_none_iff ss) as [_ H]. intros s d Hin Hd.
       destruct (index_of ss d) as [j|] eqn:Hj.
@@ -211,16 +211,16 @@ Proof.
   - split; [discriminate|]. intros [Hres _]. exfalso. apply (proj1 (edges_none_iff ss)); auto.
 Qed.
 
-Theorem admit_missing_iff ss : admit ss = VMissing <-> ~ all_resolve ss.
+Theorem gaccept_missing_iff ss : gaccept ss = VMissing <-> ~ all_resolve ss.
 Proof.
-  unfold admit. rewrite <- edges_none_iff. destruct (edges ss) as [E|]; [|tauto].
+  unfold gaccept. rewrite <- edges_none_iff. destruct (edges ss) as [E|]; [|tauto].
   destruct (has_cycle (List.length ss) E); split; discriminate.
 Qed.
 
-Theorem admit_cycle_witness ss : NoDup (map gname ss) -> admit ss = VCycle ->
+Theorem gaccept_cycle_witness ss : NoDup (map gname ss) -> gaccept ss = VCycle ->
   all_resolve ss /\ exists x, clos_trans string (dep_rel ss) x x.
 Proof.
-  intros Hnd. unfold admit. destruct (edges ss) as [E|] eqn:HE; [|discriminate].
+  intros Hnd. unfold gaccept. destruct (edges ss) as [E|] eqn:HE; [|discriminate].
   destruct (has_cycle (List.length ss) E) eqn:Hc; [|discriminate]. intros _. split.
   - intros s d Hin Hd. destruct (index_of ss d) as [j|] eqn:Hj.
     + destruct (index_of_some _ _ _ Hj) as (s' & Hn' & Hg). exists s'. split; auto. eapply nth_error_In; eauto.
@@ -230,12 +230,12 @@ Proof.
     assert (si = sj) by congruence. subst si. eauto.
 Qed.
 
-(* non-vacuity: a diamond is admitted, a self-dependency and a 2-cycle are not, a dangling name is missing *)
+(* non-vacuity: a diamond is accepted, a self-dependency and a 2-cycle are not, a dangling name is missing *)
 Open Scope string_scope.
 Definition mk (n : string) (ds : list string) := {| gname := n; gdeps := ds |}.
-Example admit_diamond : admit [mk "a" []; mk "b" ["a"]; mk "c" ["a"]; mk "d" ["b"; "c"]] = VOk /\
+Example gaccept_diamond : gaccept [mk "a" []; mk "b" ["a"]; mk "c" ["a"]; mk "d" ["b"; "c"]] = VOk /\
   NoDup (map gname [mk "a" []; mk "b" ["a"]; mk "c" ["a"]; mk "d" ["b"; "c"]]).
 Proof. split; [reflexivity|]. repeat constructor; simpl; intuition discriminate. Qed.
-Example admit_self : admit [mk "a" ["a"]] = VCycle. Proof. reflexivity. Qed.
-Example admit_two : admit [mk "a" ["b"]; mk "b" ["a"]] = VCycle. Proof. reflexivity. Qed.
-Example admit_dangling : admit [mk "a" ["zz"]; mk "b" ["a"]] = VMissing. Proof. reflexivity. Qed.
+Example gaccept_self : gaccept [mk "a" ["a"]] = VCycle. Proof. reflexivity. Qed.
+Example gaccept_two : gaccept [mk "a" ["b"]; mk "b" ["a"]] = VCycle. Proof. reflexivity. Qed.
+Example gaccept_dangling : gaccept [mk "a" ["zz"]; mk "b" ["a"]] = VMissing. Proof. reflexivity. Qed.
